@@ -22,38 +22,40 @@ var intrinsics map[string]intrinsicFn
 
 func init() {
 	intrinsics = map[string]intrinsicFn{
-		"crypto/hmac.New":                   inHmacNew,
-		"(*sync.Pool).Get":                  inPoolGet,
-		"(*sync.Pool).Put":                  inPoolPut,
-		"strings.TrimSpace":                 inTrimSpace,
-		"strings.ToUpper":                   func(e *Exec, a []Value, s *ssa.CallCommon) Value { return inCaseMap(e, a, true) },
-		"strings.ToLower":                   func(e *Exec, a []Value, s *ssa.CallCommon) Value { return inCaseMap(e, a, false) },
-		"strings.Repeat":                    inRepeat,
-		"strings.Split":                     func(e *Exec, a []Value, s *ssa.CallCommon) Value { return inSplit(e, a[0], a[1], nil) },
-		"strings.SplitN":                    func(e *Exec, a []Value, s *ssa.CallCommon) Value { return inSplit(e, a[0], a[1], a[2].(*Term)) },
-		"strings.Clone":                     func(e *Exec, a []Value, s *ssa.CallCommon) Value { return a[0] },
-		"internal/stringslite.Clone":        func(e *Exec, a []Value, s *ssa.CallCommon) Value { return a[0] },
-		"strings.Contains":                  inContains,
-		"fmt.Sprintf":                       inSprintf,
-		"fmt.Errorf":                        inErrorf,
-		"fmt.Sprint":                        inSprint,
-		"crypto/rand.Read":                  inRandRead,
-		"internal/bytealg.MakeNoZero":       inMakeNoZero,
-		"crypto/subtle.XORBytes":            nil,
-		"time.Now":                          inTimeNow,
-		"time.Since":                        func(e *Exec, a []Value, s *ssa.CallCommon) Value { return e.tb.Const(64, 0) },
-		"time.runtimeNano":                  func(e *Exec, a []Value, s *ssa.CallCommon) Value { return e.tb.Const(64, 1) },
-		"runtime.KeepAlive":                 func(e *Exec, a []Value, s *ssa.CallCommon) Value { return &TupleV{} },
-		"(*sync.Mutex).Lock":                func(e *Exec, a []Value, s *ssa.CallCommon) Value { return &TupleV{} },
-		"(*sync.Mutex).Unlock":              func(e *Exec, a []Value, s *ssa.CallCommon) Value { return &TupleV{} },
-		"(*sync.RWMutex).RLock":             func(e *Exec, a []Value, s *ssa.CallCommon) Value { return &TupleV{} },
-		"(*sync.RWMutex).RUnlock":           func(e *Exec, a []Value, s *ssa.CallCommon) Value { return &TupleV{} },
-		"(*sync.RWMutex).Lock":              func(e *Exec, a []Value, s *ssa.CallCommon) Value { return &TupleV{} },
-		"(*sync.RWMutex).Unlock":            func(e *Exec, a []Value, s *ssa.CallCommon) Value { return &TupleV{} },
-		"strconv.FormatInt":                 inFormatInt,
-		"strconv.Itoa":                      inFormatInt,
-		"strconv.Quote":                     inQuote,
-		"internal/godebug.(*Setting).Value": func(e *Exec, a []Value, s *ssa.CallCommon) Value { return e.constString("") },
+		"crypto/hmac.New":            inHmacNew,
+		"(*sync.Pool).Get":           inPoolGet,
+		"(*sync.Pool).Put":           inPoolPut,
+		"strings.TrimSpace":          inTrimSpace,
+		"strings.ToUpper":            func(e *Exec, a []Value, s *ssa.CallCommon) Value { return inCaseMap(e, a, true) },
+		"strings.ToLower":            func(e *Exec, a []Value, s *ssa.CallCommon) Value { return inCaseMap(e, a, false) },
+		"strings.Repeat":             inRepeat,
+		"strings.Split":              func(e *Exec, a []Value, s *ssa.CallCommon) Value { return inSplit(e, a[0], a[1], nil) },
+		"strings.SplitN":             func(e *Exec, a []Value, s *ssa.CallCommon) Value { return inSplit(e, a[0], a[1], a[2].(*Term)) },
+		"strings.Clone":              func(e *Exec, a []Value, s *ssa.CallCommon) Value { return a[0] },
+		"internal/stringslite.Clone": func(e *Exec, a []Value, s *ssa.CallCommon) Value { return a[0] },
+		"strings.Contains":           inContains,
+		"fmt.Sprintf":                inSprintf,
+		"fmt.Errorf":                 inErrorf,
+		"fmt.Sprint":                 inSprint,
+		"crypto/rand.Read":           inRandRead,
+		"(*crypto/rand.reader).Read": inReaderRead,
+		"crypto/internal/boring/sig.StandardCrypto": func(e *Exec, a []Value, s *ssa.CallCommon) Value { return &TupleV{} },
+		"internal/bytealg.MakeNoZero":               inMakeNoZero,
+		"crypto/subtle.XORBytes":                    nil,
+		"time.Now":                                  inTimeNow,
+		"time.Since":                                func(e *Exec, a []Value, s *ssa.CallCommon) Value { return e.tb.Const(64, 0) },
+		"time.runtimeNano":                          func(e *Exec, a []Value, s *ssa.CallCommon) Value { return e.tb.Const(64, 1) },
+		"runtime.KeepAlive":                         func(e *Exec, a []Value, s *ssa.CallCommon) Value { return &TupleV{} },
+		"(*sync.Mutex).Lock":                        func(e *Exec, a []Value, s *ssa.CallCommon) Value { return &TupleV{} },
+		"(*sync.Mutex).Unlock":                      func(e *Exec, a []Value, s *ssa.CallCommon) Value { return &TupleV{} },
+		"(*sync.RWMutex).RLock":                     func(e *Exec, a []Value, s *ssa.CallCommon) Value { return &TupleV{} },
+		"(*sync.RWMutex).RUnlock":                   func(e *Exec, a []Value, s *ssa.CallCommon) Value { return &TupleV{} },
+		"(*sync.RWMutex).Lock":                      func(e *Exec, a []Value, s *ssa.CallCommon) Value { return &TupleV{} },
+		"(*sync.RWMutex).Unlock":                    func(e *Exec, a []Value, s *ssa.CallCommon) Value { return &TupleV{} },
+		"strconv.FormatInt":                         inFormatInt,
+		"strconv.Itoa":                              inFormatInt,
+		"strconv.Quote":                             inQuote,
+		"internal/godebug.(*Setting).Value":         func(e *Exec, a []Value, s *ssa.CallCommon) Value { return e.constString("") },
 	}
 	delete(intrinsics, "crypto/subtle.XORBytes")
 	registerHarnessIntrinsics()
@@ -625,7 +627,26 @@ func (e *Exec) formatArg(verb byte, a Value) (*StrV, bool) {
 						if sig.Params().Len() == 0 && sig.Results().Len() == 1 && isString(sig.Results().At(0).Type()) {
 							fn := e.prog.MethodValue(sel)
 							if fn != nil {
-								r := e.call(&FuncV{fn: fn}, []Value{iv.v}, nil)
+								// like fmt, a panic inside Error()/String() is caught and rendered
+								var r Value
+								panicked := false
+								func() {
+									defer func() {
+										if x := recover(); x != nil {
+											if _, ok := x.(*goPanic); ok {
+												panicked = true
+												return
+											}
+											panic(x)
+										}
+									}()
+									saveF, saveD := e.curFrame, e.depth
+									defer func() { e.curFrame, e.depth = saveF, saveD }()
+									r = e.call(&FuncV{fn: fn}, []Value{iv.v}, nil)
+								}()
+								if panicked {
+									return e.constString("%!v(PANIC=" + mname + " method)"), false
+								}
 								return r.(*StrV), true
 							}
 						}
@@ -794,7 +815,23 @@ func (e *Exec) sprintf(format string, args []Value) *fmtRecord {
 		}
 	} else {
 		rec.exact = false
-		rec.str = e.opaqueString("fmt_sprintf", 64, rec)
+		// exact bytes for the leading pieces of concrete length, then the rest as one opaque tail
+		var head []*Term
+		k := 0
+		for k < len(pieces) && pieces[k].len.IsConst() {
+			head = append(head, e.strBytes(pieces[k])...)
+			k++
+		}
+		tail := e.opaqueString("fmt_sprintf", 64, rec)
+		if len(head) == 0 {
+			rec.str = tail
+		} else {
+			bs := append(head, e.windowBytes(tail.arr, 0)...)
+			r := e.mkString(bs)
+			r.len = e.tb.Add(e.c64(int64(len(head))), tail.len)
+			e.strMeta[r.arr] = rec
+			rec.str = r
+		}
 		e.strPieces[rec.str.arr] = pieces
 	}
 	return rec
@@ -859,6 +896,7 @@ func inRandRead(e *Exec, args []Value, site *ssa.CallCommon) Value {
 		e.arrSetTrail(s.arr, e.tb.Add(s.off, e.c64(int64(i))), v)
 	}
 	e.randStreams = append(e.randStreams, stream)
+	e.randLens = append(e.randLens, e.c64(int64(n)))
 	return &TupleV{E: []Value{e.c64(int64(n)), &IfaceV{}}}
 }
 
@@ -874,4 +912,32 @@ func inTimeNow(e *Exec, args []Value, site *ssa.CallCommon) Value {
 	e.addPC(e.tb.And(e.tb.Sle(e.c64(0), sec), e.tb.Slt(sec, e.c64(1<<40))))
 	ext := e.tb.Add(sec, e.c64(62135596800))
 	return &StructV{F: []Value{e.tb.Const(64, 0), ext, &PtrV{}}}
+}
+
+// rand.Reader.Read called directly: only the io.Reader contract holds for a (replaceable)
+// reader - it may deliver fewer bytes than asked for.  n in [1, len(p)] bytes are filled.
+func inReaderRead(e *Exec, args []Value, site *ssa.CallCommon) Value {
+	s := args[1].(*SliceV)
+	ln := e.concLen(s.len, "Reader.Read buffer length")
+	e.opaque["randcalls"] = e.opaque["randcalls"].(int) + 1
+	if ln == 0 {
+		e.randStreams = append(e.randStreams, nil)
+		e.randLens = append(e.randLens, e.c64(0))
+		return &TupleV{E: []Value{e.c64(0), &IfaceV{}}}
+	}
+	n := e.freshVar("rand_n", 64)
+	if e.cfg.Concrete == nil {
+		e.addPCKind(e.tb.And(e.tb.Ule(e.c64(1), n), e.tb.Ule(n, e.c64(int64(ln)))), 'a')
+	}
+	var stream []*Term
+	for i := 0; i < ln; i++ {
+		v := e.freshVar(fmt.Sprintf("rand_%d", i), 8)
+		stream = append(stream, v)
+		idx := e.tb.Add(s.off, e.c64(int64(i)))
+		old := e.arrGet(s.arr, idx).(*Term)
+		e.arrSetTrail(s.arr, idx, e.tb.Ite(e.tb.Ult(e.c64(int64(i)), n), v, old))
+	}
+	e.randStreams = append(e.randStreams, stream)
+	e.randLens = append(e.randLens, n)
+	return &TupleV{E: []Value{n, &IfaceV{}}}
 }
